@@ -90,7 +90,7 @@ class FuncAnalysis:
                 return self.origins(e.value)
             return frozenset()
         if isinstance(e, ast.Subscript):
-            if _basic_slice(e.slice):
+            if _basic_slice(e.slice) or self._slice_objects_only(e.slice):
                 return self.origins(e.value)
             return frozenset()
         if isinstance(e, ast.IfExp):
@@ -107,6 +107,66 @@ class FuncAnalysis:
         if isinstance(e, ast.Starred):
             return self.origins(e.value)
         return frozenset()
+
+    def _slice_names(self) -> set:
+        """Local names every definition of which is a `slice(...)` object (or
+        None), directly or as the result of a nested function that returns
+        only `slice(...)` / None: indexing with them selects a view."""
+        if getattr(self, "_sln", None) is not None:
+            return self._sln
+        nested = {}
+        for n in ast.walk(self.f.node):
+            if isinstance(n, ast.FunctionDef) and n is not self.f.node:
+                rets = [r.value for r in ast.walk(n) if isinstance(r, ast.Return)]
+                nested[n.name] = rets
+
+        def is_slice(v, depth=0):
+            if isinstance(v, ast.Call) and isinstance(v.func, ast.Name):
+                if v.func.id == "slice":
+                    return True
+                rets = nested.get(v.func.id)
+                if rets and depth < 2:
+                    real = [r for r in rets if not (r is None or (
+                        isinstance(r, ast.Constant) and r.value is None))]
+                    return bool(real) and all(is_slice(r, depth + 1) for r in real)
+            if isinstance(v, ast.IfExp):
+                return is_slice(v.body, depth) and (is_slice(v.orelse, depth) or (
+                    isinstance(v.orelse, ast.Constant) and v.orelse.value is None))
+            return False
+        defs: dict = {}
+        for n in ast.walk(self.f.node):
+            if isinstance(n, ast.Assign) and len(n.targets) == 1:
+                t, v = n.targets[0], n.value
+                if isinstance(t, ast.Name):
+                    defs.setdefault(t.id, []).append(v)
+                elif isinstance(t, ast.Tuple) and isinstance(v, ast.Tuple) and \
+                        len(t.elts) == len(v.elts):
+                    for a, b in zip(t.elts, v.elts):
+                        if isinstance(a, ast.Name):
+                            defs.setdefault(a.id, []).append(b)
+                else:
+                    for a in ast.walk(t):
+                        if isinstance(a, ast.Name):
+                            defs.setdefault(a.id, []).append(None)
+            elif isinstance(n, (ast.AugAssign, ast.For, ast.comprehension, ast.With,
+                                ast.NamedExpr)):
+                tg = getattr(n, "target", None)
+                for a in ast.walk(tg) if tg is not None else ():
+                    if isinstance(a, ast.Name):
+                        defs.setdefault(a.id, []).append(None)
+        params = set(self.f.params + self.f.kwonly)
+        self._sln = {k for k, vs in defs.items() if k not in params and vs and
+                     all(v is not None and is_slice(v) for v in vs)}
+        return self._sln
+
+    def _slice_objects_only(self, sl) -> bool:
+        elts = sl.elts if isinstance(sl, ast.Tuple) else [sl]
+        names = [x for x in elts if isinstance(x, ast.Name)]
+        if not names:
+            return False
+        sn = self._slice_names()
+        return all((isinstance(x, ast.Name) and x.id in sn) or
+                   (not isinstance(x, ast.Name) and _basic_slice(x)) for x in elts)
 
     def cell_origins(self, attr) -> frozenset:
         if self.cls is not None:
